@@ -282,7 +282,7 @@ func (c *lexerCompiler) traverseLexer(parts []ast.LexerPart, defaultSCs []int, p
 			var id string
 			if lid, ok := p.LexemeId(); ok {
 				id = lid.Identifier().Text()
-				if strings.ContainsFunc(id, unicode.IsLower) {
+				if strings.ContainsFunc(id, unicode.IsLower) || !ident.IsValid(id) {
 					id = ident.Produce(id, ident.UpperCase)
 				}
 			}
@@ -526,7 +526,7 @@ func (c *lexerCompiler) parseFlexDeclarations(lexer ast.LexerSection) {
 			var id string
 			if lid, ok := p.LexemeId(); ok {
 				id = lid.Identifier().Text()
-				if strings.ContainsFunc(id, unicode.IsLower) {
+				if strings.ContainsFunc(id, unicode.IsLower) || !ident.IsValid(id) {
 					id = ident.Produce(id, ident.UpperCase)
 				}
 			}
